@@ -1,1 +1,1037 @@
-fn main() {}
+//! C45 — correspondence + oracle for the host-login authorisation of the unix resolver.
+//!
+//! Two streams (one report), both against the real crates `sparkle_resolver_common` /
+//! `sparkle_unix_common` / `kanidm_client`:
+//!
+//! * `authorise`: the real `KanidmProvider::unix_user_authorise` (through the `IdProvider` trait)
+//!   on random allowed-login lists and random `UserToken`s (duplicate groups, groups whose name
+//!   looks like another group's uuid, case variants, spn / gid / un-hyphenated spellings …);
+//!   an exhaustive small scope first.
+//! * `resolver`: the real `Resolver::pam_account_allowed`, end to end: real `SystemProvider`
+//!   loaded with passwd entries, real sqlite cache (`Db`, optionally pre-seeded rows), real
+//!   `KanidmProvider` talking HTTP (real `kanidm_client`) to an in-process mock of
+//!   `GET /v1/self` and `GET /v1/account/{id}/_unix/_token`.  A case is a history: the directory
+//!   changes / breaks, the administrator invalidates the cache or forces the provider offline /
+//!   online, PAM asks.  Every query is answered by the implementation and by the Lean model
+//!   (`km_c45`, same history) and judged by an oracle written from the property text only.
+use hunix::*;
+use kanidm_client::KanidmClientBuilder;
+use kanidm_hsm_crypto::{
+    provider::{BoxedDynTpm, SoftTpm, Tpm},
+    AuthValue,
+};
+use kanidm_proto::internal::OperationError;
+use kanidm_proto::v1::{UnixGroupToken, UnixUserToken};
+use serde_json::{json, Value};
+use sparkle_resolver_common::db::{Cache, Db};
+use sparkle_resolver_common::idprovider::interface::{GroupToken, Id, IdProvider, ProviderOrigin, UserToken};
+use sparkle_resolver_common::idprovider::kanidm::KanidmProvider;
+use sparkle_resolver_common::idprovider::system::SystemProvider;
+use sparkle_resolver_common::resolver::Resolver;
+use sparkle_unix_common::constants::{
+    DEFAULT_CACHE_TIMEOUT, DEFAULT_GID_ATTR_MAP, DEFAULT_HOME_ALIAS, DEFAULT_HOME_ATTR, DEFAULT_HOME_PREFIX,
+    DEFAULT_SHELL, DEFAULT_UID_ATTR_MAP,
+};
+use sparkle_unix_common::unix_config::KanidmConfig;
+use sparkle_unix_common::unix_passwd::EtcUser;
+use sparkle_unix_common::unix_proto::PamServiceInfo;
+use std::collections::{BTreeMap, HashMap};
+use std::sync::{Arc, RwLock};
+use std::time::{Duration, SystemTime};
+use tokio::io::{AsyncReadExt, AsyncWriteExt};
+use tokio::net::TcpListener;
+use uuid::Uuid;
+
+// ---------------------------------------------------------------------------------------------
+// atoms <-> strings (injective; the model only ever compares atoms for equality)
+
+const VARIANTS: u64 = 8;
+
+fn guuid(b: u64) -> Uuid {
+    Uuid::parse_str(&format!("00000000-0000-4000-8000-{:012x}", 0xabc000u64 + b)).unwrap()
+}
+/// Key atoms: eight spellings per group index `b = a / 8`.  Variant 0 is the plain name, variant 1
+/// the hyphenated lower-case uuid (the only uuid spelling a `GroupToken`'s uuid produces); the
+/// others are near misses that the property's "by name or UUID" might be misread to include.
+fn kstr(a: u64) -> String {
+    let b = a / VARIANTS;
+    match a % VARIANTS {
+        0 => format!("grp{b}"),
+        1 => guuid(b).hyphenated().to_string(),
+        2 => format!("Grp{b}"),
+        3 => guuid(b).hyphenated().to_string().to_uppercase(),
+        4 => guuid(b).simple().to_string(),
+        5 => format!("grp{b}@example.com"),
+        6 => format!("grp{b} "),
+        _ => format!("{}", 30000 + b),
+    }
+}
+fn uname(u: u64) -> String {
+    format!("usr{u}")
+}
+fn uuuid(u: u64) -> Uuid {
+    Uuid::parse_str(&format!("00000000-0000-4000-9000-{u:012x}")).unwrap()
+}
+
+/// A group of a token: index `b` (fixes uuid, spn, gid) and the atom of its *name*.
+#[derive(Clone, Copy, Debug, PartialEq, Eq, PartialOrd, Ord)]
+struct G {
+    b: u64,
+    name: u64,
+}
+impl G {
+    fn uuid_atom(&self) -> u64 {
+        self.b * VARIANTS + 1
+    }
+    fn line(&self) -> String {
+        format!("{}/{}", self.name, self.uuid_atom())
+    }
+    fn group_token(&self) -> GroupToken {
+        GroupToken {
+            provider: ProviderOrigin::Kanidm,
+            name: kstr(self.name),
+            spn: format!("grp{}@example.com", self.b),
+            uuid: guuid(self.b),
+            gidnumber: 30000 + self.b as u32,
+            extra_keys: Default::default(),
+        }
+    }
+    fn unix_group_token(&self) -> UnixGroupToken {
+        UnixGroupToken { name: kstr(self.name), spn: format!("grp{}@example.com", self.b), uuid: guuid(self.b), gidnumber: 30000 + self.b as u32 }
+    }
+}
+fn groups_line(gs: &[G]) -> String {
+    if gs.is_empty() {
+        "-".into()
+    } else {
+        gs.iter().map(|g| g.line()).collect::<Vec<_>>().join("+")
+    }
+}
+fn list_line(v: &[u64]) -> String {
+    if v.is_empty() {
+        "-".into()
+    } else {
+        v.iter().map(|x| x.to_string()).collect::<Vec<_>>().join(",")
+    }
+}
+fn gs_json(gs: &[G]) -> Value {
+    Value::Array(gs.iter().map(|g| json!([g.b, g.name])).collect())
+}
+fn gs_from(v: &Value) -> Vec<G> {
+    v.as_array().unwrap().iter().map(|g| G { b: g[0].as_u64().unwrap(), name: g[1].as_u64().unwrap() }).collect()
+}
+fn u64s(v: &Value) -> Vec<u64> {
+    v.as_array().unwrap().iter().map(|x| x.as_u64().unwrap()).collect()
+}
+
+fn user_token(u: u64, provider: ProviderOrigin, gs: &[G], valid: bool) -> UserToken {
+    UserToken {
+        provider,
+        name: uname(u),
+        spn: format!("usr{u}@example.com"),
+        uuid: uuuid(u),
+        gidnumber: 20000 + u as u32,
+        displayname: format!("User {u}"),
+        shell: None,
+        groups: gs.iter().map(|g| g.group_token()).collect(),
+        sshkeys: vec![],
+        valid,
+        extra_keys: Default::default(),
+    }
+}
+
+// ---------------------------------------------------------------------------------------------
+// the property, from its text only
+//
+// "A directory user may log in to a host only if the user's current account record is valid and
+//  the user belongs, by name or UUID, to at least one group in the host's allowed-login list; an
+//  empty list admits no directory users."
+//
+// The reading of "by name or UUID" is deliberately the most liberal one (exact name, or any
+// spelling `Uuid::parse_str` accepts): the oracle checks the *only if*, so a liberal reading can
+// only make it quieter, never louder, than a strict one.
+fn belongs(allow: &[String], gs: &[(String, Uuid)]) -> bool {
+    gs.iter().any(|(name, uuid)| allow.iter().any(|a| a == name || Uuid::parse_str(a.trim()).map(|x| x == *uuid).unwrap_or(false)))
+}
+/// `record` = the user's current account record as far as the host can know it (None = none).
+fn oracle(allow: &[String], record: Option<(&[(String, Uuid)], bool)>, answer: &str) -> Result<(), String> {
+    if answer != "1" {
+        return Ok(());
+    }
+    if allow.is_empty() {
+        return Err("allowed although the allowed-login list is empty".into());
+    }
+    match record {
+        None => Err("allowed although the user has no current account record".into()),
+        Some((_, false)) => Err("allowed although the current account record is not valid".into()),
+        Some((gs, true)) => {
+            if belongs(allow, gs) {
+                Ok(())
+            } else {
+                Err("allowed although the user is in no group of the allowed-login list".into())
+            }
+        }
+    }
+}
+fn classify(msg: &str) -> String {
+    if msg.contains("list is empty") {
+        "C45:empty-list-admits".into()
+    } else if msg.contains("not valid") {
+        "C45:invalid-record-admitted".into()
+    } else if msg.contains("no current account record") {
+        "C45:no-record-admitted".into()
+    } else if msg.contains("in no group") {
+        "C45:non-member-admitted".into()
+    } else {
+        "unclassified".into()
+    }
+}
+fn named(gs: &[G]) -> Vec<(String, Uuid)> {
+    gs.iter().map(|g| (kstr(g.name), guuid(g.b))).collect()
+}
+
+// ---------------------------------------------------------------------------------------------
+// mock of the kanidm server
+
+#[derive(Clone, Debug, PartialEq)]
+enum DirEntry {
+    Tok(bool, Vec<G>),
+    /// connection dropped
+    Transport,
+    /// status, index into `OE` (the OperationError body)
+    Status(u64, u64),
+    /// 200 with an undecodable body
+    Bad,
+}
+/// (lower-cased variant name as the model's table spells it, JSON body)
+fn oe_table() -> Vec<(String, String)> {
+    let j = |e: &OperationError| serde_json::to_string(e).unwrap();
+    vec![
+        ("nomatchingentries".into(), j(&OperationError::NoMatchingEntries)),
+        ("missingattribute".into(), j(&OperationError::MissingAttribute(kanidm_proto::attribute::Attribute::GidNumber))),
+        ("missingclass".into(), j(&OperationError::MissingClass("posixaccount".into()))),
+        ("invalidaccountstate".into(), j(&OperationError::InvalidAccountState("no posix".into()))),
+        ("notauthenticated".into(), j(&OperationError::NotAuthenticated)),
+        ("sessionexpired".into(), j(&OperationError::SessionExpired)),
+        ("accessdenied".into(), j(&OperationError::AccessDenied)),
+        ("-".into(), "\"status\"".into()),
+    ]
+}
+impl DirEntry {
+    fn line(&self, oe: &[(String, String)]) -> String {
+        match self {
+            DirEntry::Tok(v, gs) => format!("tok:{}:{}", *v as u8, groups_line(gs)),
+            DirEntry::Transport => "tr".into(),
+            DirEntry::Status(c, i) => format!("st:{c}:{}", oe[*i as usize].0),
+            DirEntry::Bad => "bad".into(),
+        }
+    }
+    fn to_json(&self) -> Value {
+        match self {
+            DirEntry::Tok(v, gs) => json!({"tok": gs_json(gs), "valid": v}),
+            DirEntry::Transport => json!("tr"),
+            DirEntry::Status(c, i) => json!({"st": [c, i]}),
+            DirEntry::Bad => json!("bad"),
+        }
+    }
+    fn from_json(v: &Value) -> DirEntry {
+        if let Some(t) = v.get("tok") {
+            DirEntry::Tok(v["valid"].as_bool().unwrap(), gs_from(t))
+        } else if let Some(s) = v.get("st") {
+            DirEntry::Status(s[0].as_u64().unwrap(), s[1].as_u64().unwrap())
+        } else if v == "tr" {
+            DirEntry::Transport
+        } else {
+            DirEntry::Bad
+        }
+    }
+}
+
+#[derive(Clone)]
+enum MockReply {
+    Json(u16, String),
+    Drop,
+}
+/// What the mock handed out last for an account: a record, or "gone" — only these two change
+/// what the host knows about the user's account record.
+#[derive(Clone, Debug)]
+enum Served {
+    Record(bool, Vec<G>),
+    Gone,
+}
+#[derive(Default)]
+struct MockState {
+    tokens: HashMap<String, (MockReply, Option<Served>)>,
+    self_reply: Option<MockReply>,
+    served: HashMap<String, Served>,
+    token_requests: u64,
+}
+type Mock = Arc<RwLock<MockState>>;
+
+async fn serve(listener: TcpListener, mock: Mock) {
+    loop {
+        let (mut sock, _) = match listener.accept().await {
+            Ok(x) => x,
+            Err(_) => continue,
+        };
+        let mock = mock.clone();
+        tokio::spawn(async move {
+            let mut buf: Vec<u8> = Vec::new();
+            let mut tmp = [0u8; 4096];
+            loop {
+                let head_end = loop {
+                    if let Some(p) = buf.windows(4).position(|w| w == b"\r\n\r\n") {
+                        break Some(p + 4);
+                    }
+                    match sock.read(&mut tmp).await {
+                        Ok(0) | Err(_) => break None,
+                        Ok(n) => buf.extend_from_slice(&tmp[..n]),
+                    }
+                };
+                let Some(end) = head_end else { return };
+                let head = String::from_utf8_lossy(&buf[..end]).to_string();
+                buf.drain(..end);
+                let path = head.split_whitespace().nth(1).unwrap_or("").to_string();
+                let reply = {
+                    let mut m = mock.write().unwrap();
+                    if path == "/v1/self" {
+                        m.self_reply.clone().unwrap_or(MockReply::Json(200, "{\"youare\":{\"attrs\":{}}}".into()))
+                    } else if let Some(id) = path.strip_prefix("/v1/account/").and_then(|s| s.strip_suffix("/_unix/_token")) {
+                        m.token_requests += 1;
+                        let (r, s) = m
+                            .tokens
+                            .get(id)
+                            .cloned()
+                            .unwrap_or((MockReply::Json(404, "\"nomatchingentries\"".into()), Some(Served::Gone)));
+                        if let Some(s) = s {
+                            m.served.insert(id.to_string(), s);
+                        }
+                        r
+                    } else {
+                        MockReply::Json(500, "\"unexpected path\"".into())
+                    }
+                };
+                match reply {
+                    MockReply::Drop => return,
+                    MockReply::Json(code, body) => {
+                        let msg = format!(
+                            "HTTP/1.1 {code} Status\r\ncontent-type: application/json\r\nx-kanidm-version: verif\r\ncontent-length: {}\r\n\r\n{body}",
+                            body.len()
+                        );
+                        if sock.write_all(msg.as_bytes()).await.is_err() {
+                            return;
+                        }
+                    }
+                }
+            }
+        });
+    }
+}
+
+// ---------------------------------------------------------------------------------------------
+// a real host
+
+/// A real host for one allowed-login list.  Building one costs ~1.4 s (`KanidmProvider::new`
+/// calibrates argon2 against the wall clock), so hosts are built once per list, in parallel, and
+/// put back into the start state before every history (`reset_host`).
+struct Host {
+    resolver: Resolver,
+    provider: Arc<KanidmProvider>,
+    /// second connection to the host's cache database (rows present "when the daemon starts")
+    seed_db: Db,
+}
+
+#[derive(Clone, Debug, PartialEq)]
+struct Seed {
+    u: u64,
+    known: bool,
+    valid: bool,
+    expired: bool,
+    gs: Vec<G>,
+}
+
+async fn build_host(uri: String, allow: Vec<u64>, db_path: String) -> Host {
+    let client = KanidmClientBuilder::new()
+        .address(uri)
+        .enable_native_ca_roots(false)
+        .no_proxy()
+        .build()
+        .expect("client");
+    let _ = std::fs::remove_file(&db_path);
+    let db = Db::new(&db_path).expect("db");
+    let mut dbtxn = db.write().await;
+    dbtxn.migrate().expect("migrate");
+    let mut hsm = BoxedDynTpm::new(SoftTpm::default());
+    let auth_value = AuthValue::ephemeral().unwrap();
+    let lmk = hsm.root_storage_key_create(&auth_value).unwrap();
+    let machine_key = hsm.root_storage_key_load(&auth_value, &lmk).unwrap();
+    let system_provider = SystemProvider::new().unwrap();
+    let provider = KanidmProvider::new(
+        client,
+        &KanidmConfig {
+            conn_timeout: 2,
+            request_timeout: 2,
+            pam_allowed_login_groups: allow.iter().map(|a| kstr(*a)).collect(),
+            map_group: vec![],
+            service_account_token: Some("verif-token".into()),
+        },
+        SystemTime::now(),
+        &mut (&mut dbtxn).into(),
+        &mut hsm,
+        &machine_key,
+    )
+    .await
+    .expect("provider");
+    drop(machine_key);
+    dbtxn.commit().expect("commit");
+    let provider = Arc::new(provider);
+    let (resolver, _rx) = Resolver::new(
+        db,
+        Arc::new(system_provider),
+        vec![provider.clone()],
+        hsm,
+        DEFAULT_CACHE_TIMEOUT,
+        DEFAULT_SHELL.to_string(),
+        DEFAULT_HOME_PREFIX.into(),
+        DEFAULT_HOME_ATTR,
+        DEFAULT_HOME_ALIAS,
+        DEFAULT_UID_ATTR_MAP,
+        DEFAULT_GID_ATTR_MAP,
+    )
+    .await
+    .expect("resolver");
+    let seed_db = Db::new(&db_path).expect("second db handle");
+    Host { resolver, provider, seed_db }
+}
+
+/// Put a host into the start state of a history: empty cache and nxcache, the given rows in the
+/// cache database, the given passwd entries, provider due for an online check.
+async fn reset_host(h: &Host, sys: &[u64], seeds: &[Seed]) {
+    h.resolver.clear_cache().await.expect("clear_cache");
+    if !seeds.is_empty() {
+        let mut dbtxn = h.seed_db.write().await;
+        let now = SystemTime::now().duration_since(SystemTime::UNIX_EPOCH).unwrap().as_secs();
+        for s in seeds {
+            let ex = if s.expired { now - 1000 } else { now + 250 };
+            let tok = user_token(s.u, if s.known { ProviderOrigin::Kanidm } else { ProviderOrigin::System }, &s.gs, s.valid);
+            for g in &tok.groups {
+                dbtxn.update_group(g, ex).expect("seed group");
+            }
+            dbtxn.update_account(&tok, ex).expect("seed account");
+        }
+        dbtxn.commit().expect("commit");
+    }
+    let users = sys
+        .iter()
+        .map(|u| EtcUser {
+            name: uname(*u),
+            password: "x".into(),
+            uid: 1000 + *u as u32,
+            gid: 1000 + *u as u32,
+            gecos: String::new(),
+            homedir: format!("/home/{}", uname(*u)),
+            shell: "/bin/sh".into(),
+        })
+        .collect();
+    h.resolver.reload_system_identities(users, vec![], vec![]).await;
+    h.resolver.mark_next_check_now(SystemTime::now() - Duration::from_millis(1)).await;
+}
+
+// ---------------------------------------------------------------------------------------------
+// histories
+
+#[derive(Clone, Debug, PartialEq)]
+enum Op {
+    Dir(u64, DirEntry),
+    /// 0 = 200, 1 = 401 (both count as an answer), 2 = 500, 3 = dropped
+    SelfReply(u64),
+    Inval,
+    Offline,
+    NextCheck,
+    Query(u64),
+}
+impl Op {
+    fn to_json(&self) -> Value {
+        match self {
+            Op::Dir(u, e) => json!({"dir": u, "e": e.to_json()}),
+            Op::SelfReply(k) => json!({"self": k}),
+            Op::Inval => json!("inval"),
+            Op::Offline => json!("offline"),
+            Op::NextCheck => json!("nextcheck"),
+            Op::Query(u) => json!({"q": u}),
+        }
+    }
+    fn from_json(v: &Value) -> Op {
+        if let Some(u) = v.get("dir") {
+            Op::Dir(u.as_u64().unwrap(), DirEntry::from_json(&v["e"]))
+        } else if let Some(k) = v.get("self") {
+            Op::SelfReply(k.as_u64().unwrap())
+        } else if let Some(u) = v.get("q") {
+            Op::Query(u.as_u64().unwrap())
+        } else if v == "inval" {
+            Op::Inval
+        } else if v == "offline" {
+            Op::Offline
+        } else {
+            Op::NextCheck
+        }
+    }
+}
+
+#[derive(Clone, Debug, PartialEq)]
+struct Case {
+    allow: Vec<u64>,
+    sys: Vec<u64>,
+    seeds: Vec<Seed>,
+    ops: Vec<Op>,
+}
+impl Case {
+    fn to_json(&self) -> Value {
+        json!({
+            "allow": self.allow, "sys": self.sys,
+            "seeds": self.seeds.iter().map(|s| json!({"u": s.u, "known": s.known, "valid": s.valid, "expired": s.expired, "gs": gs_json(&s.gs)})).collect::<Vec<_>>(),
+            "ops": self.ops.iter().map(|o| o.to_json()).collect::<Vec<_>>(),
+        })
+    }
+    fn from_json(v: &Value) -> Case {
+        Case {
+            allow: u64s(&v["allow"]),
+            sys: u64s(&v["sys"]),
+            seeds: v["seeds"]
+                .as_array()
+                .unwrap()
+                .iter()
+                .map(|s| Seed {
+                    u: s["u"].as_u64().unwrap(),
+                    known: s["known"].as_bool().unwrap(),
+                    valid: s["valid"].as_bool().unwrap(),
+                    expired: s["expired"].as_bool().unwrap(),
+                    gs: gs_from(&s["gs"]),
+                })
+                .collect(),
+            ops: v["ops"].as_array().unwrap().iter().map(Op::from_json).collect(),
+        }
+    }
+}
+
+struct Ctx {
+    rt: tokio::runtime::Runtime,
+    mock: Mock,
+    uri: String,
+    drv: Driver,
+    rep: Report,
+    oe: Vec<(String, String)>,
+    hosts_built: u64,
+    hosts: HashMap<Vec<u64>, Arc<Host>>,
+    dir: std::path::PathBuf,
+}
+
+impl Ctx {
+    /// Build the hosts for these allowed-login lists concurrently (those not built yet).
+    fn prebuild(&mut self, lists: &[Vec<u64>]) {
+        let mut todo: Vec<Vec<u64>> = vec![];
+        for l in lists {
+            if !self.hosts.contains_key(l) && !todo.contains(l) {
+                todo.push(l.clone());
+            }
+        }
+        let uri = self.uri.clone();
+        let base = self.hosts_built;
+        let dir = self.dir.clone();
+        let built: Vec<(Vec<u64>, Host)> = self.rt.block_on(async {
+            let mut set = tokio::task::JoinSet::new();
+            for (i, l) in todo.into_iter().enumerate() {
+                let uri = uri.clone();
+                let path = dir.join(format!("host{}.db", base + i as u64)).to_string_lossy().to_string();
+                set.spawn(async move {
+                    let h = build_host(uri, l.clone(), path).await;
+                    (l, h)
+                });
+            }
+            let mut out = vec![];
+            while let Some(r) = set.join_next().await {
+                out.push(r.expect("host build task"));
+            }
+            out
+        });
+        for (l, h) in built {
+            self.hosts_built += 1;
+            self.hosts.insert(l, Arc::new(h));
+        }
+    }
+    fn host(&mut self, allow: &[u64]) -> Arc<Host> {
+        if !self.hosts.contains_key(allow) {
+            self.prebuild(&[allow.to_vec()]);
+        }
+        self.hosts.get(allow).unwrap().clone()
+    }
+
+    fn fail_model(&mut self, input: Value, expected: String, observed: String) {
+        self.rep.fail(Failure { kind: "impl-vs-model".into(), class: "unclassified".into(), input, expected, observed });
+    }
+
+    /// One history on a fresh real host and on the model.
+    fn run_case(&mut self, c: &Case, tag: &str) {
+        {
+            let mut m = self.mock.write().unwrap();
+            *m = MockState::default();
+        }
+        let host = self.host(&c.allow);
+        self.rt.block_on(reset_host(&host, &c.sys, &c.seeds));
+        let allow_s: Vec<String> = c.allow.iter().map(|a| kstr(*a)).collect();
+        // what the host can know about each account: seeded rows first
+        let mut lines = vec![format!("reset {} {}", list_line(&c.sys), list_line(&c.allow))];
+        // later seeds for the same account overwrite earlier ones in the database
+        for s in &c.seeds {
+            lines.push(format!("seed {} {} {} {} {}", s.u, s.known as u8, s.valid as u8, s.expired as u8, groups_line(&s.gs)));
+        }
+        let mut expect_ok = lines.len();
+        let mut observed: Vec<(usize, u64, String)> = vec![]; // (line index, user, impl reply)
+        let pam = PamServiceInfo { service: "sshd".into(), tty: None, rhost: None };
+        let mut records: BTreeMap<u64, Option<(bool, Vec<G>)>> = BTreeMap::new();
+        for s in &c.seeds {
+            records.insert(s.u, Some((s.valid, s.gs.clone())));
+        }
+        let mut oracle_view: Vec<Option<(bool, Vec<G>)>> = vec![];
+        for op in &c.ops {
+            match op {
+                Op::Dir(u, e) => {
+                    let (reply, served) = match e {
+                        DirEntry::Tok(v, gs) => {
+                            let t = UnixUserToken {
+                                name: uname(*u),
+                                spn: format!("usr{u}@example.com"),
+                                displayname: format!("User {u}"),
+                                gidnumber: 20000 + *u as u32,
+                                uuid: uuuid(*u),
+                                shell: None,
+                                groups: gs.iter().map(|g| g.unix_group_token()).collect(),
+                                sshkeys: vec![],
+                                valid: *v,
+                            };
+                            (MockReply::Json(200, serde_json::to_string(&t).unwrap()), Some(Served::Record(*v, gs.clone())))
+                        }
+                        DirEntry::Transport => (MockReply::Drop, None),
+                        DirEntry::Status(code, i) => {
+                            let body = self.oe[*i as usize].1.clone();
+                            // for the oracle every other error reply leaves the last known record in force
+                            // 404 "no matching entries" is the directory saying the account does not exist
+                            let gone = *code == 404 && *i == 0;
+                            (MockReply::Json(*code as u16, body), if gone { Some(Served::Gone) } else { None })
+                        }
+                        DirEntry::Bad => (MockReply::Json(200, "{\"name\":7}".into()), None),
+                    };
+                    self.mock.write().unwrap().tokens.insert(uname(*u), (reply, served));
+                    lines.push(format!("dir {u} {}", e.line(&self.oe)));
+                    expect_ok += 1;
+                }
+                Op::SelfReply(k) => {
+                    let r = match k {
+                        0 => None,
+                        1 => Some(MockReply::Json(401, "\"notauthenticated\"".into())),
+                        2 => Some(MockReply::Json(500, "\"status\"".into())),
+                        _ => Some(MockReply::Drop),
+                    };
+                    self.mock.write().unwrap().self_reply = r;
+                    lines.push(format!("self {}", (*k < 2) as u8));
+                    expect_ok += 1;
+                }
+                Op::Inval => {
+                    self.rt.block_on(host.resolver.invalidate()).expect("invalidate");
+                    lines.push("inval".into());
+                    expect_ok += 1;
+                }
+                Op::Offline => {
+                    self.rt.block_on(host.resolver.mark_offline());
+                    lines.push("offline".into());
+                    expect_ok += 1;
+                }
+                Op::NextCheck => {
+                    self.rt.block_on(host.resolver.mark_next_check_now(SystemTime::now() - Duration::from_millis(1)));
+                    lines.push("nextcheck".into());
+                    expect_ok += 1;
+                }
+                Op::Query(u) => {
+                    let name = uname(*u);
+                    let (ans, online, nx) = self.rt.block_on(async {
+                        let a = host.resolver.pam_account_allowed(&name, &pam).await;
+                        let online = host.provider.is_online().await;
+                        let nx = host.resolver.check_nxcache(&Id::Name(name.clone())).await.is_some();
+                        (a, online, nx)
+                    });
+                    let ans = match ans {
+                        Ok(Some(true)) => "1",
+                        Ok(Some(false)) => "0",
+                        Ok(None) => "none",
+                        Err(()) => "err",
+                    };
+                    // fold what the mock handed out since the last look into the host's knowledge
+                    {
+                        let mut m = self.mock.write().unwrap();
+                        for (id, s) in m.served.drain() {
+                            let uu: u64 = id.trim_start_matches("usr").parse().unwrap_or(u64::MAX);
+                            records.insert(
+                                uu,
+                                match s {
+                                    Served::Record(v, gs) => Some((v, gs)),
+                                    Served::Gone => None,
+                                },
+                            );
+                        }
+                    }
+                    oracle_view.push(records.get(u).cloned().flatten());
+                    observed.push((lines.len(), *u, format!("{ans} {} {}", if online { "on" } else { "off" }, nx as u8)));
+                    lines.push(format!("q {u}"));
+                }
+            }
+        }
+        let _ = expect_ok;
+        let replies = self.drv.ask_batch(&lines);
+        let input = json!({"stream": "resolver", "case": c.to_json()});
+        for (k, ((li, u, got), view)) in observed.iter().zip(oracle_view.iter()).enumerate() {
+            let model = replies[*li].replace(" chk ", " off ");
+            let ans = got.split(' ').next().unwrap_or("");
+            let is_sys = c.sys.contains(u);
+            self.rep.count(&format!("stream:{tag}"));
+            self.rep.count(&format!("answer:{}{}", if is_sys { "sys:" } else { "" }, ans));
+            let nontrivial = !is_sys && !c.allow.is_empty() && (ans == "1" || ans == "0") && view.as_ref().map(|(_, gs)| !gs.is_empty()).unwrap_or(false);
+            if nontrivial {
+                let (v, gs) = view.as_ref().unwrap();
+                self.rep.case(Some(format!("r|{}|{}|{}|{ans}", list_line(&c.allow), *v as u8, groups_line(gs))));
+                self.rep.count(&format!("allow-len:{}", c.allow.len().min(4)));
+                self.rep.count(&format!("groups:{}", gs.len().min(5)));
+            } else {
+                self.rep.case(None);
+            }
+            if !is_sys {
+                let named_gs = view.as_ref().map(|(v, gs)| (named(gs), *v));
+                if let Err(msg) = oracle(&allow_s, named_gs.as_ref().map(|(g, v)| (g.as_slice(), *v)), ans) {
+                    self.rep.fail(Failure {
+                        kind: "impl-vs-oracle".into(),
+                        class: classify(&msg),
+                        input: json!({"stream": "resolver", "case": c.to_json(), "query_index": k}),
+                        expected: msg,
+                        observed: got.clone(),
+                    });
+                }
+            }
+            if model != *got {
+                self.fail_model(
+                    json!({"stream": "resolver", "case": c.to_json(), "query_index": k, "lines": lines}),
+                    model.clone(),
+                    got.clone(),
+                );
+            }
+            if self.rep.evaluations % 1499 == 1 {
+                self.rep.sample(json!({"history": lines, "query": format!("q {u}"), "impl": got, "model": model}));
+            }
+        }
+        for (i, r) in replies.iter().enumerate() {
+            if r == "bad-op" {
+                self.fail_model(input.clone(), format!("model accepts line {i}"), format!("bad-op for `{}`", lines[i]));
+            }
+        }
+    }
+
+    /// Pure stream: the provider's decision on explicit tokens.
+    fn run_auth(&mut self, allow: &[u64], toks: &[(bool, Vec<G>)], tag: &str) {
+        let host = self.host(allow);
+        let allow_s: Vec<String> = allow.iter().map(|a| kstr(*a)).collect();
+        let lines: Vec<String> = toks.iter().map(|(v, gs)| format!("auth {} {} {}", list_line(allow), *v as u8, groups_line(gs))).collect();
+        let replies = self.drv.ask_batch(&lines);
+        for (((v, gs), line), model) in toks.iter().zip(lines.iter()).zip(replies.iter()) {
+            let tok = user_token(1, ProviderOrigin::Kanidm, gs, *v);
+            let got = match self.rt.block_on(host.provider.unix_user_authorise(&tok)) {
+                Ok(Some(true)) => "1",
+                Ok(Some(false)) => "0",
+                Ok(None) => "none",
+                Err(_) => "err",
+            };
+            self.rep.count(&format!("stream:{tag}"));
+            self.rep.count(&format!("auth-answer:{got}"));
+            let nontrivial = !allow.is_empty() && !gs.is_empty();
+            self.rep.case(if nontrivial { Some(format!("a|{line}")) } else { None });
+            let input = json!({"stream": "authorise", "allow": allow, "valid": v, "groups": gs_json(gs), "line": line});
+            let ng = named(gs);
+            if let Err(msg) = oracle(&allow_s, Some((ng.as_slice(), *v)), got) {
+                self.rep.fail(Failure { kind: "impl-vs-oracle".into(), class: classify(&msg), input: input.clone(), expected: msg, observed: got.into() });
+            }
+            if model != got {
+                self.fail_model(input, model.clone(), got.into());
+            }
+            if self.rep.evaluations % 1499 == 1 {
+                self.rep.sample(json!({"request": line, "allow": allow_s, "groups": ng.iter().map(|(n, u)| format!("{n} / {u}")).collect::<Vec<_>>(), "impl": got, "model": model}));
+            }
+        }
+    }
+}
+
+// ---------------------------------------------------------------------------------------------
+// generators
+
+fn gen_group(r: &mut Rng, bases: u64) -> G {
+    let b = r.below(bases);
+    let name = match r.below(20) {
+        0 => r.below(bases) * VARIANTS + 1,            // named like some group's uuid
+        1 => b * VARIANTS + *r.pick(&[2u64, 5, 6, 7]), // odd spelling as the real name
+        2 => r.below(bases) * VARIANTS,                // another group's plain name (duplicate names)
+        _ => b * VARIANTS,
+    };
+    G { b, name }
+}
+fn gen_allow(r: &mut Rng, bases: u64, profile: u64) -> Vec<u64> {
+    if profile % 6 == 0 {
+        return vec![];
+    }
+    let n = r.range(0, 4);
+    let mut v = vec![];
+    for _ in 0..n {
+        let b = r.below(bases + 1); // sometimes a group nobody is in
+        let variant = match r.below(10) {
+            0..=3 => 0,
+            4..=6 => 1,
+            _ => r.range(2, 7),
+        };
+        let a = b * VARIANTS + variant;
+        v.push(a);
+        if r.chance(1, 8) {
+            v.push(a);
+        }
+    }
+    v
+}
+fn gen_groups(r: &mut Rng, bases: u64) -> Vec<G> {
+    let n = match r.below(8) {
+        0 => 0,
+        1 => 1,
+        _ => r.range(1, 5),
+    };
+    let mut gs = vec![];
+    for _ in 0..n {
+        let g = gen_group(r, bases);
+        gs.push(g);
+        if r.chance(1, 10) {
+            gs.push(g);
+        }
+    }
+    gs
+}
+/// Make membership hinge on exactly one element (or just miss).
+fn boundary(r: &mut Rng, allow: &[u64], gs: &mut Vec<G>) {
+    if allow.is_empty() {
+        return;
+    }
+    let pick = *r.pick(allow);
+    let b = pick / VARIANTS;
+    match r.below(5) {
+        0 => gs.push(G { b, name: b * VARIANTS }),                 // the group itself, last
+        1 => gs.insert(0, G { b: b + 50, name: pick }),            // another group *named* exactly like the entry
+        2 => gs.retain(|g| !allow.contains(&g.name) && !allow.contains(&g.uuid_atom())), // not a member
+        3 => gs.push(G { b, name: b * VARIANTS + 2 }),             // right group under a different name: uuid decides
+        _ => gs.push(G { b: b + 50, name: (pick / VARIANTS) * VARIANTS + ((pick % VARIANTS) + 1) % VARIANTS }), // near miss
+    }
+}
+
+/// Directory tokens within one resolver case use one consistent group table (index -> name),
+/// as a directory would; the sqlite cache purges rows with clashing names.
+fn gen_case(r: &mut Rng, bases: u64, allow: Vec<u64>) -> Case {
+    let table: Vec<G> = (0..bases)
+        .map(|b| G { b, name: if r.chance(1, 6) { b * VARIANTS + *r.pick(&[2u64, 5, 6, 7]) } else { b * VARIANTS } })
+        .collect();
+    let nusers = r.range(2, 4);
+    let sys: Vec<u64> = match r.below(4) {
+        0 => vec![],
+        1 => vec![9],
+        2 => vec![9, r.range(1, nusers)], // a passwd entry shadowing a directory user
+        _ => vec![r.range(1, nusers)],
+    };
+    let pick_groups = |r: &mut Rng| -> Vec<G> {
+        let mut gs: Vec<G> = table.iter().filter(|_| r.chance(1, 2)).cloned().collect();
+        if r.chance(1, 3) && !allow.is_empty() {
+            let pick = *r.pick(&allow);
+            let b = pick / VARIANTS;
+            match r.below(3) {
+                0 => {
+                    if let Some(g) = table.iter().find(|g| g.b == b) {
+                        if !gs.contains(g) {
+                            gs.push(*g);
+                        }
+                    }
+                }
+                1 => gs.retain(|g| !allow.contains(&g.name) && !allow.contains(&g.uuid_atom())),
+                _ => {}
+            }
+        }
+        r.shuffle(&mut gs);
+        gs
+    };
+    let mut seeds = vec![];
+    if r.chance(1, 3) {
+        for _ in 0..r.range(1, 2) {
+            seeds.push(Seed { u: r.range(1, nusers), known: !r.chance(1, 4), valid: !r.chance(1, 4), expired: r.chance(1, 2), gs: pick_groups(r) });
+        }
+        // one row per account (a second seed for the same account would replace the first)
+        seeds.dedup_by_key(|s| s.u);
+        if seeds.len() == 2 && seeds[0].u == seeds[1].u {
+            seeds.pop();
+        }
+    }
+    let mut ops = vec![];
+    // most histories start with a populated directory
+    for u in 1..=nusers {
+        if r.chance(4, 5) {
+            ops.push(Op::Dir(u, DirEntry::Tok(!r.chance(1, 5), pick_groups(r))));
+        }
+    }
+    let n = r.range(6, 18);
+    for _ in 0..n {
+        let u = if r.chance(1, 10) { nusers + 1 } else { r.range(1, nusers) };
+        let op = match r.below(100) {
+            0..=44 => Op::Query(if r.chance(1, 12) { 9 } else { u }),
+            45..=62 => Op::Dir(u, DirEntry::Tok(!r.chance(1, 4), pick_groups(r))),
+            63..=69 => Op::Dir(u, DirEntry::Status(*r.pick(&[404u64, 404, 400, 400, 401, 403, 500, 409]), r.below(8))),
+            70..=72 => Op::Dir(u, DirEntry::Transport),
+            73..=74 => Op::Dir(u, DirEntry::Bad),
+            75..=86 => Op::Inval,
+            87..=90 => Op::Offline,
+            91..=96 => Op::NextCheck,
+            _ => Op::SelfReply(r.below(4)),
+        };
+        // a change is usually followed by a look
+        let follow = matches!(op, Op::Dir(..) | Op::Inval | Op::NextCheck) && r.chance(1, 2);
+        let target = match &op {
+            Op::Dir(u, _) => *u,
+            _ => u,
+        };
+        ops.push(op);
+        if follow {
+            ops.push(Op::Query(target));
+        }
+    }
+    ops.push(Op::Query(r.range(1, nusers)));
+    Case { allow, sys, seeds, ops }
+}
+
+/// Exhaustive small scope for the decision: every sub-list of a 5-atom allow universe x every
+/// group list of length <= 2 over 4 groups x valid flag.
+fn exhaustive(ctx: &mut Ctx, thorough: bool) -> u64 {
+    // groups: A = (b0 named grp0), B = (b1 named grp1), C = (b2 *named* A's uuid string), D = (b0 named Grp0)
+    let pool = [G { b: 0, name: 0 }, G { b: 1, name: 8 }, G { b: 2, name: 1 }, G { b: 0, name: 2 }];
+    // allow universe: A's name, A's uuid, B's uuid, upper-case spelling of A's uuid, B's spn
+    let universe: Vec<u64> = if thorough { vec![0, 1, 9, 3, 13] } else { vec![0, 1, 3] };
+    let all: Vec<Vec<u64>> = (0..(1u32 << universe.len()))
+        .map(|mask| universe.iter().enumerate().filter(|(i, _)| mask >> i & 1 == 1).map(|(_, a)| *a).collect())
+        .collect();
+    ctx.prebuild(&all);
+    let mut lists: Vec<Vec<G>> = vec![vec![]];
+    for a in &pool {
+        lists.push(vec![*a]);
+        for b in &pool {
+            lists.push(vec![*a, *b]);
+        }
+    }
+    let mut toks = vec![];
+    for gs in &lists {
+        toks.push((true, gs.clone()));
+        toks.push((false, gs.clone()));
+    }
+    let mut n = 0;
+    for mask in 0..(1u32 << universe.len()) {
+        let allow: Vec<u64> = universe.iter().enumerate().filter(|(i, _)| mask >> i & 1 == 1).map(|(_, a)| *a).collect();
+        ctx.run_auth(&allow, &toks, "exhaustive");
+        n += toks.len() as u64;
+    }
+    n
+}
+
+fn main() {
+    std::env::set_var("KANIDM_DEV_YOLO", "1");
+    let args = Args::parse();
+    let rt = tokio::runtime::Builder::new_multi_thread().worker_threads(8).enable_all().build().unwrap();
+    let mock: Mock = Arc::new(RwLock::new(MockState::default()));
+    let listener = rt.block_on(async { TcpListener::bind("127.0.0.1:0").await.unwrap() });
+    let port = listener.local_addr().unwrap().port();
+    rt.spawn(serve(listener, mock.clone()));
+    let mut ctx = Ctx {
+        rt,
+        mock,
+        uri: format!("http://127.0.0.1:{port}"),
+        drv: Driver::spawn(&args.driver),
+        oe: oe_table(),
+        hosts_built: 0,
+        hosts: HashMap::new(),
+        dir: {
+            let d = std::env::temp_dir().join(format!("verif-c45-{}", std::process::id()));
+            std::fs::create_dir_all(&d).unwrap();
+            d
+        },
+        rep: Report::new(
+            "host-authz",
+            "each evaluation = one real decision: `unix_user_authorise` on an explicit token (stream authorise) or one \
+             `Resolver::pam_account_allowed` call inside a history on a real host reset to its start state (stream resolver: real system provider, \
+             sqlite cache, kanidm provider over HTTP to a mock directory); non-trivial = a directory user (no passwd entry) whose \
+             judged record has >= 1 group, the allowed-login list is non-empty and the answer is allow or deny (so the set \
+             intersection and the validity flag really decide); distinct = distinct (allowed list, record, answer)",
+        ),
+    };
+    // the model's "record is gone" table must be the five shapes the mock can produce
+    let shapes = ctx.drv.ask("shapes");
+    ctx.rep.note(format!("model gone-shapes: {shapes}"));
+    if let Some(path) = &args.replay {
+        let v: Value = serde_json::from_str(&std::fs::read_to_string(path).unwrap()).unwrap();
+        let inp = &v["input"];
+        if inp["stream"] == "authorise" {
+            ctx.run_auth(&u64s(&inp["allow"]), &[(inp["valid"].as_bool().unwrap(), gs_from(&inp["groups"]))], "replay");
+        } else {
+            ctx.run_case(&Case::from_json(&inp["case"]), "replay");
+        }
+        ctx.rep.write(&args.out);
+        let _ = std::fs::remove_dir_all(&ctx.dir);
+        println!("c45 replay: {} cases, {} failures", ctx.rep.evaluations, ctx.rep.failures.len());
+        return;
+    }
+    let n = exhaustive(&mut ctx, args.thorough());
+    ctx.rep.exhaustive = true;
+    ctx.rep.note(format!(
+        "exhaustive (authorise): every sub-list of {} x 21 group lists (length <= 2 over A, B, C named like A's uuid, D = A under another name) x valid flag = {n} decisions",
+        if args.thorough() { "{A.name, A.uuid, B.uuid, upper-case A.uuid, B.spn}" } else { "{A.name, A.uuid, upper-case A.uuid}" }
+    ));
+    // the allowed-login lists of this run (one real host each, built concurrently)
+    let npool = args.cases(16, 120).min(400);
+    let pool: Vec<(u64, Vec<u64>)> = (0..npool)
+        .map(|k| {
+            let mut r = Rng::for_case(args.seed ^ 0xa110, k);
+            let bases = r.range(2, 4);
+            (bases, gen_allow(&mut r, bases, k))
+        })
+        .collect();
+    ctx.prebuild(&pool.iter().map(|(_, a)| a.clone()).collect::<Vec<_>>());
+    // random decisions
+    let na = args.cases(1_000, 8_000);
+    for i in 0..na {
+        let mut r = Rng::for_case(args.seed, i);
+        let (bases, allow) = pool[(i % npool) as usize].clone();
+        let mut toks = vec![];
+        for _ in 0..r.range(4, 10) {
+            let mut gs = gen_groups(&mut r, bases);
+            if r.chance(1, 3) {
+                boundary(&mut r, &allow, &mut gs);
+            }
+            toks.push((!r.chance(1, 4), gs));
+        }
+        ctx.run_auth(&allow, &toks, "authorise");
+    }
+    // random histories
+    let nr = args.cases(2_000, 12_000);
+    for i in 0..nr {
+        let mut r = Rng::for_case(args.seed ^ 0x45, i);
+        let (bases, allow) = pool[(r.below(npool)) as usize].clone();
+        let c = gen_case(&mut r, bases, allow);
+        ctx.run_case(&c, "resolver");
+    }
+    ctx.rep.model_requests = ctx.drv.requests;
+    ctx.rep.note(format!("{} real hosts built (Db + SoftTpm + KanidmProvider + SystemProvider + Resolver)", ctx.hosts_built));
+    ctx.rep.write(&args.out);
+    let _ = std::fs::remove_dir_all(&ctx.dir);
+    println!("c45: {} cases, {} failures", ctx.rep.evaluations, ctx.rep.failures.len());
+}
